@@ -221,6 +221,74 @@ pub fn run(ctx: &'static Ctx) {
                "short_slices_over_{0,1,7f,80,ff}": slices.len(), "extra_forms":["sink.dword","sink.qword"]}),
     );
     ctx.force_sample(json!({"state": 255, "op": "append", "slice": [255, 255], "expected_raw": 253}));
+    // ---- E3b': multi-byte sink methods over values (the value principle): every word; dwords and qwords over
+    // util::value_set (thorough: every dword), qwords also as every (high, low) pair of the quick 32-bit set; each from
+    // every one of the 256 states (quick: 8 states for the pair product), compared with the byte-wise model, and the
+    // same bytes through append / delete / sink.vec
+    {
+        let quick = ctx.quick();
+        let nv = AtomicU64::new(0);
+        let judge = |s: u8, act: Act| {
+            let mut c = at(s);
+            apply(&mut c, &act);
+            let want = model_step(s as u64, &act) as u8;
+            if c.raw_value() != want || c.raw_value().wrapping_add(c.value()) != 0 {
+                ctx.violation(&format!("acc:value-sweep:{}", act_name(&act)), || format!("state {} {:?} -> raw {} expected {}", s, act, c.raw_value(), want), || json!({"ops":[["add", s],[format!("{:?}", act)]]}));
+            }
+        };
+        (0..=0xffffu32).into_par_iter().for_each(|w| {
+            for s in [0u8, 1, 0x7f, 0x80, 0xa5, 0xff] {
+                judge(s, Act::SinkWord(w as u16));
+            }
+            nv.fetch_add(6, std::sync::atomic::Ordering::Relaxed);
+        });
+        let v32 = crate::util::value_set(32, 0x0403_0201, false);
+        let v64 = crate::util::value_set(64, 0x0807_0605_0403_0201, false);
+        (0u16..256).into_par_iter().for_each(|s| {
+            let s = s as u8;
+            for d in &v32 {
+                let d = *d as u32;
+                judge(s, Act::SinkDword(d));
+                judge(s, Act::SinkVec(d.to_le_bytes().to_vec()));
+            }
+            for q in &v64 {
+                judge(s, Act::SinkQword(*q));
+                judge(s, Act::Append(q.to_le_bytes().to_vec()));
+                judge(s, Act::Delete(q.to_le_bytes().to_vec()));
+                judge(s, Act::SinkVec(q.to_le_bytes().to_vec()));
+            }
+            nv.fetch_add(2 * v32.len() as u64 + 4 * v64.len() as u64, std::sync::atomic::Ordering::Relaxed);
+        });
+        let q32 = crate::util::value_set(32, 0x0403_0201, true);
+        q32.par_iter().for_each(|hi| {
+            for lo in &q32 {
+                for s in [0u8, 1, 0x7f, 0x80, 0xa5, 0xfe, 0xff, 0x10] {
+                    judge(s, Act::SinkQword((*hi << 32) | *lo));
+                }
+            }
+            nv.fetch_add(8 * q32.len() as u64, std::sync::atomic::Ordering::Relaxed);
+        });
+        let mut all_dwords = false;
+        if !quick {
+            all_dwords = true;
+            (0u32..65536).into_par_iter().for_each(|hi| {
+                for lo in 0u32..65536 {
+                    let d = (hi << 16) | lo;
+                    let mut c = at(0xa5);
+                    AmlSink::dword(&mut c, d);
+                    let b = d.to_le_bytes();
+                    let want = 0xa5u8.wrapping_add(b[0]).wrapping_add(b[1]).wrapping_add(b[2]).wrapping_add(b[3]);
+                    if c.raw_value() != want {
+                        judge(0xa5, Act::SinkDword(d));
+                    }
+                }
+                nv.fetch_add(65536, std::sync::atomic::Ordering::Relaxed);
+            });
+        }
+        let n = nv.load(std::sync::atomic::Ordering::Relaxed);
+        ctx.tr(n);
+        ctx.engine("E3.multi-byte-values", json!({"evaluations": n, "words": "all 65536 x 6 states", "dword_values": v32.len(), "qword_values": v64.len(), "states": 256, "qword_pairs": q32.len() * q32.len(), "all_2^32_dwords": all_dwords}));
+    }
 
     // ---- E3c: long slices (an implementation that sums a slice in a wider integer and folds it back must fold correctly)
     let mut long: Vec<Vec<u8>> = vec![];
